@@ -8,6 +8,8 @@ package datasemaphore
 //@ guarded DataSemaphore.processing by mu
 //@ guarded DataSemaphore.maxProcessing by mu
 //@ ghost warnings int
+//@ // the outcome of the latest attempt to take the requested amount (tryAcquire): what Acquire/TryAcquire report must be it
+//@ ghost gTryLast bool
 //@
 //@ funcfield DataSemaphore.warning
 //@   modifies warnings
@@ -16,9 +18,10 @@ package datasemaphore
 //@ spec fits(s *DataSemaphore, m dag.Metric) bool = s.processing.Num + m.Num <= s.maxProcessing.Num && s.processing.Size + m.Size <= s.maxProcessing.Size
 //@
 //@ func (*DataSemaphore).tryAcquire
+//@   ghost gTryLast = result
 //@   requires s != nil
 //@   requires [locked] wlocked(s.mu)
-//@   modifies s.processing
+//@   modifies s.processing, gTryLast
 //@   ensures  [grant] result == old(fits(s, metric))
 //@   ensures  [held] result ==> s.processing.Num == old(s.processing.Num) + metric.Num && s.processing.Size == old(s.processing.Size) + metric.Size
 //@   ensures  [bound] result ==> s.processing.Num <= s.maxProcessing.Num && s.processing.Size <= s.maxProcessing.Size
@@ -26,7 +29,8 @@ package datasemaphore
 //@
 //@ func (*DataSemaphore).TryAcquire
 //@   requires s != nil
-//@   modifies s.processing
+//@   modifies s.processing, gTryLast
+//@   ensures  [reported] result == gTryLast
 //@   ensures  result == old(fits(s, weight))
 //@   ensures  result ==> s.processing.Num == old(s.processing.Num) + weight.Num && s.processing.Size == old(s.processing.Size) + weight.Size
 //@   ensures  result ==> s.processing.Num <= s.maxProcessing.Num && s.processing.Size <= s.maxProcessing.Size
@@ -56,8 +60,9 @@ package datasemaphore
 //@ // return after termination": Wait is only entered while the request could still fit.
 //@ func (*DataSemaphore).Acquire
 //@   requires s != nil && s.cond != nil
-//@   modifies s.processing, s.maxProcessing
+//@   modifies s.processing, s.maxProcessing, gTryLast
+//@   ensures  [reported] result == gTryLast
 //@   ensures  [granted] result ==> s.processing.Num <= s.maxProcessing.Num && s.processing.Size <= s.maxProcessing.Size
 //@   at call (*sync.Cond).Wait[1] requires weight.Size <= s.maxProcessing.Size && weight.Num <= s.maxProcessing.Num
 //@   at call (*sync.Cond).Wait[1] modifies s.processing, s.maxProcessing
-//@   loop 1 modifies s.processing, s.maxProcessing
+//@   loop 1 modifies s.processing, s.maxProcessing, gTryLast
